@@ -223,7 +223,9 @@ class CellCycleController:
         released = lock.release(owner=ctx.operation_id)
 
         if released:
-            del ctx.acquired_resources[resource_id]
+            # A re-entrant hold is still owned after one release: keep tracking it
+            if lock.owner != ctx.operation_id:
+                del ctx.acquired_resources[resource_id]
             self.dependency_graph.remove_all_for_agent(ctx.operation_id)
 
         return released
@@ -231,7 +233,12 @@ class CellCycleController:
     def release_all_resources(self, ctx: OperationContext) -> None:
         """Release all resources held by an operation."""
         for resource_id in list(ctx.acquired_resources.keys()):
-            self.release_resource(ctx, resource_id)
+            # Re-entrant acquisitions hold the lock several times
+            while (
+                self.release_resource(ctx, resource_id)
+                and resource_id in ctx.acquired_resources
+            ):
+                pass
 
     def check_deadlock(self) -> Optional[DeadlockInfo]:
         """Check for deadlocks in current operations."""
